@@ -1,6 +1,6 @@
 SPECIFICATION Spec
 CONSTANTS
-  Problems <- ProblemsT
+  Problems <- ProblemsTA
   LastPos = TRUE
 INVARIANT NeverWorse
 INVARIANT LossConsistent
